@@ -57,6 +57,9 @@ pub fn check(tier: Tier) -> Check {
     parts.push(Part::new("C10/fill", json!({"r": 65535}), 0, 120));
     parts.push(Part::new("C10/fill", json!({"r": 0}), 0, 120));
     parts.push(Part::new("C10/fill", json!({"r": 300}), 0, 120));
+    // value flavour (DESIGN 4): the same exploration with requests / inbound messages of unusual content
+    parts.push(Part::new("C10/quota", json!({"depth": tier.pick(5, 6), "r": 2, "vals": 1}), 0, tier.pick(25, 400)));
+    parts.push(Part::new("C10/quota", json!({"depth": tier.pick(4, 5), "r": 1, "vals": 1}), 1, tier.pick(25, 400)));
     Check {
         also_rel: false,
         property: "C10",
